@@ -10,7 +10,20 @@ U = 'lib/utils.cpp'
 
 fn('dsplib::xcorr', X, sig='(const dsplib::arr_cmplx &, const dsplib::arr_cmplx &)', key='xcorr(cmplx,cmplx)', serves=['C07', 'C05'], pure=True,
    requires=[('nonempty', 'And(x1.len >= 1, x2.len >= 1, x1.len + x2.len <= 536870912)')], throws='False', body_assumes=['INSLICE_AX()'],
-   ensures=[('lags', 'result.len == x1.len + x2.len - 1')])
+   # data path over the assumed transforms (the correlation theorem that turns it into the correlation sum is mathematics; bounded
+   # stand-in in the thorough tier): A1 / A2 go into the two forward transforms, RA1 / RA2 come out, B goes into the inverse, RB out
+   pins_algorithm=True, extra_env={'cplx_placeholder': __import__('contracts.hilbert', fromlist=['x']).cplx_placeholder},
+   ghost={'A1': 'x1', 'A2': 'x1', 'RA1': 'x1', 'RA2': 'x1', 'B': 'x1', 'RB': 'x1'},
+   ghost_on=[('call:fft', None, {'A2': 'arg0', 'A1': 'A2'}), ('ret:fft', None, {'RA2': 'arg', 'RA1': 'RA2'}),
+             ('call:ifft', None, {'B': 'arg0'}), ('ret:ifft', None, {'RB': 'arg'})],
+   lets={'N1': 'x1.len', 'N2': 'x2.len'},
+   ensures=[('lags', 'result.len == x1.len + x2.len - 1'),
+            ('first_padded_at_the_end', 'And(A1.len >= N1 + N2 - 1, A1.len < 2 * (N1 + N2 - 1) + 1, forall(lambda k: Implies(And(0 <= k, k < A1.len), same(A1[k], If(k < N1, x1[k], cx(0, 0))))))'),
+            ('second_padded_at_the_front', 'And(A2.len == A1.len, forall(lambda k: Implies(And(0 <= k, k < A2.len), same(A2[k], If(k >= A2.len - N2, x2[k - (A2.len - N2)], cx(0, 0))))))'),
+            ('conjugate_product', 'And(B.len == A1.len, RA1.len == A1.len, RA2.len == A1.len, forall(lambda k: Implies(And(0 <= k, k < A1.len), '
+                                  'And(B[k].re == RA1[k].re * RA2[k].re + RA1[k].im * RA2[k].im, B[k].im == RA1[k].re * RA2[k].im - RA1[k].im * RA2[k].re))))'),
+            ('lags_read_backwards_conjugated', 'And(RB.len == A1.len, forall(lambda j: Implies(And(0 <= j, j < N1 + N2 - 1), '
+                                               'And(result[j].re == RB[A1.len - 1 - j].re, result[j].im == -RB[A1.len - 1 - j].im))))')])
 fn('dsplib::xcorr', X, sig='(const dsplib::arr_real &, const dsplib::arr_real &)', key='xcorr(real,real)', serves=['C07', 'C05'], pure=True,
    requires=[('nonempty', 'And(x1.len >= 1, x2.len >= 1, x1.len + x2.len <= 536870912)')], throws='False',
    ensures=[('lags', 'result.len == x1.len + x2.len - 1')])
